@@ -31,6 +31,12 @@ fn main() {
                 None => println!("not reproduced on this tree"),
             }
         }
+        Some("standin") => {
+            let name = args.get(2).cloned().unwrap_or_default();
+            let (n, hit) = search::search_named(&name);
+            println!("CASES {n}");
+            if let Some(w) = hit { println!("WITNESS {w}"); }
+        }
         Some("selftest") => {
             let hits = search::selftest();
             for h in &hits { println!("FALSE-HIT {h}"); }
